@@ -46,8 +46,8 @@ def showE : Expr → List Tok
   | .field e => .dollar :: parenT e (.field e) (showE e)
   | .index a i => .name a :: .lbracket :: showE i ++ [.rbracket]
   | .getline cmd target file =>
-    (match cmd with | .none => [] | c => parenT c (.getline cmd target file) (showE c) ++ [.pipe]) ++ .getline :: showE target ++
-    (match file with | .none => [] | f => .cmp .lt :: parenT f (.getline cmd target file) (showE f))
+    (if cmd = .none then [] else parenT cmd (.getline cmd target file) (showE cmd) ++ [.pipe]) ++ .getline :: showE target ++
+    (if file = .none then [] else .cmp .lt :: parenT file (.getline cmd target file) (showE file))
 
 /-- wrap a printed child the way `parenthesize` does, on trees -/
 def pg (parentPrec : Nat) (child shown : Expr) : Expr :=
